@@ -37,7 +37,7 @@ func C02(r *core.Report) {
 			checkReentrant(r, "C02.R7", f, "requests")
 		}
 	}
-	r.Floor("C02.R1", 10)
+	r.Floor("C02.R1", 6)
 	r.Floor("C02.R2", 6)
 	r.Floor("C02.R3", 4)
 	r.Floor("C02.R4", 4)
